@@ -95,10 +95,16 @@ def convNumber (p : Parts) : S :=
 /-- `int64(val)` of a bound given in quarters: truncation toward zero. -/
 def truncQ (q : Int) : Int := Int.tdiv q 4
 
+/-- `MultipleOf(m)` on an Int schema.  A divisor truncated to 0 (`multipleOf: 0.5`) gives `MultipleOf(0)`, which holds for
+    NO value (validate.MultipleOf: a zero divisor divides nothing, 0 included; the round-trip document's `multipleOf: 0`
+    validates nothing either).  `NumCk.holds (.mul 0)` of Model/JsonSchema would accept 0, so that check is written as the
+    unsatisfiable pair of bounds. -/
+def mulCk (m : Int) : List NumCk := if m = 0 then [.gt 0, .lt 0] else [.mul m]
+
 def convInteger (p : Parts) : S :=
   .int .int (optL p.minimum (fun q => .gte (truncQ q)) ++ optL p.maximum (fun q => .lte (truncQ q))
     ++ optL p.exMin (fun q => .gt (truncQ q)) ++ optL p.exMax (fun q => .lt (truncQ q))
-    ++ optL p.mul (fun q => .mul (truncQ q)))
+    ++ (match p.mul with | some q => mulCk (truncQ q) | none => []))
 
 def convArray (p : Parts) : R :=
   match p.prefixItems with
